@@ -57,7 +57,8 @@ func vLeaves(kinds, ident string) []string {
 }
 
 // print: mode 'F' = parentheses around every operator node, 'M' = only where precedence
-// requires them, 'S' = as 'M' with irregular spacing.
+// requires them, 'S' = as 'M' with irregular spacing, 'T' = as 'F' but tight: no space between
+// an operator and an adjacent parenthesis, as in "(A AND B)OR(C)".
 func vPrint(enc string, pos *int, leaves []string, mode byte, parent byte) string {
 	c := enc[*pos]
 	*pos++
@@ -72,6 +73,19 @@ func vPrint(enc string, pos *int, leaves []string, mode byte, parent byte) strin
 	}
 	if mode == 'S' {
 		op = "  " + op + " "
+	}
+	if mode == 'T' {
+		w := "AND"
+		if c == '|' {
+			w = "OR"
+		}
+		if l[len(l)-1] != ')' {
+			w = " " + w
+		}
+		if r[0] != '(' {
+			w += " "
+		}
+		return "(" + l + w + r + ")"
 	}
 	s := l + op + r
 	if mode == 'F' {
